@@ -1,9 +1,12 @@
 #!/bin/sh
-# tools/try_seed.sh <seed-id> <PROPERTY> [tier]: apply a seeded change to /repo, run the check, undo the change
+# tools/try_seed.sh <seed-id> <PROPERTY> [tier]: run the check of PROPERTY against a scratch worktree of /repo
+# with the seeded change applied (VERIF_REPO points the check at it, VERIF_OUT keeps evidence/replays of the
+# trial out of /verif); the worktree is removed afterwards.  /repo itself is never touched.
 id="$1"; prop="$2"; tier="${3:-quick}"
-cd /repo || exit 3
-git diff --quiet || { echo "/repo has uncommitted changes"; exit 3; }
-git apply "/verif/seeded/$id/patch.diff" || exit 3
-cd /verif && ./check "$prop" "$tier"; rc=$?
-git -C /repo checkout -- .
-echo "seed=$id property=$prop exit=$rc"
+wt="/tmp/seedwt_${id}_$$"; out="/tmp/seedout_${id}_$$"
+git -C /repo worktree add --detach "$wt" HEAD >/dev/null 2>&1 || exit 3
+git -C "$wt" apply "/verif/seeded/$id/patch.diff" || { git -C /repo worktree remove --force "$wt"; exit 3; }
+cd /verif && VERIF_REPO="$wt" VERIF_OUT="$out" ./check "$prop" "$tier" | grep -v "guard: ok" | cut -c1-300; 
+rc=$(python3 -c "import json;print(1 if json.load(open('$out/evidence/$prop.json'))['violations'] else 0)" 2>/dev/null)
+git -C /repo worktree remove --force "$wt"; rm -rf "$out"
+echo "seed=$id property=$prop violations_reported=$rc"
